@@ -62,8 +62,12 @@ class FuncEffects:
 
 
 class Effects:
-    def __init__(self, prog, resolver):
+    def __init__(self, prog, resolver, context=None):
+        """context: name of a concrete class; methods of every class in its MRO
+        are then analysed with that class as the receiver (thorough tier)."""
         self.prog, self.res = prog, resolver
+        self.context = context
+        self._ctx_mro = set(prog.mro_names(context)) if context else set()
         self.summ = {}     # id(fn) -> dict(mut=set(params), ret=set(origins), store=set(params))
         self.fe = {}
         self._built = False
@@ -128,6 +132,8 @@ class Effects:
         fe = FuncEffects(fn)
         self._cur = id(fn)
         recv = fn.cls.name if fn.cls else None
+        if fn.cls and self.context and fn.cls.name in self._ctx_mro:
+            recv = self.context
         g = cfg_of(fn.node)
         init = {}
         for p in fn.all_params:
